@@ -109,4 +109,31 @@ theorem c05_halt_is_stop (s : State) (h : (endBlock s).2 = .halt) : (endBlock s)
   · cases h
   · rfl
 
+
+/-- KNOWN FINDING (KF-C05-negative-payout-halt), proved on the model of the code as it is: a history of valid
+    transactions after which the end-blocker halts. Odds 101, participations with liquidity
+    51,100,150,200,250,300,2,1000 (minimum deposit 2, no house fee), one bet of 12 (fee 1): the doubled rounding
+    carry of `CalculateBetAmountInt` walks down to −2.68, the seventh backing part gets stake −3 for a promised
+    profit of 2, and when the bettor wins `BettorWins` has to pay stake + profit = −1: the bank transfer fails and
+    the Go end-blocker panics ("negative coin amount"). Replayed on the implementation by scripted history 6 of
+    the `core_scripted` suite. The full statement of C05 ("end-block processing never aborts") is therefore FALSE
+    of the code as it is; the consequence is confined to the rounding-carry defect (KF-C03-negative-part). -/
+def kf05Ops : List Op :=
+  let tk : Tk := { ok := true, kycIgnore := true, kycApproved := false, kycId := 0 }
+  let pl : WagerPayload :=
+    { market := 1, odds := 11, oddsVal := some ⟨101 * PREC⟩, mult := ⟨PREC⟩, allOdds := [(11, ⟨PREC⟩), (12, ⟨PREC⟩)] }
+  [.marketAdd 9 tk 1 50 500 [11, 12] MS_ACTIVE] ++
+  ([51, 100, 150, 200, 250, 300, 2, 1000].map fun (l : Int) => Op.deposit 7 tk 1 l 0) ++
+  [.wager 8 tk 77 12 pl, .endBlock, .marketResolve tk 1 60 MS_DECLARED [11]]
+
+def kf05Init : State :=
+  { bal := [(7, 1000000), (8, 1000000), (9, 0)], time := 100,
+    params := { betMin := 2, betFee := 1, houseMin := 2, houseFee := ⟨0⟩, houseMaxW := 2, obThreshold := 0 } }
+
+theorem c05_counterexample_halt :
+    ((run kf05Init kf05Ops).bets.map (fun b => b.fulfs.map (fun f => (f.bet, f.profit))))
+        = [[(1, 51), (1, 100), (1, 150), (1, 200), (1, 250), (1, 300), (-3, 2), (8, 47)]] ∧
+    (step (run kf05Init kf05Ops) .endBlock).2 = .halt := by
+  decide +kernel
+
 end Sge.Core
